@@ -36,12 +36,32 @@ def gen(tier, rng, shard, nshards):
                "max_iters": S.pick(rng, ["1", "2", "n//2", "n-1", "n", "n+5", "default"]), "tol": float(S.pick(rng, [1e-12, 1e-12, 1e-8, 1e-5, 1e-3])),
                "fn": S.pick(rng, ["lanczos", "lanczos", "lanczos", "lanczos_eigs", "Lanczos()"]),
                "scale": float(S.pick(rng, [1.0, 1.0, 1e6, 1e-6]))}
+        if rng.random() < 0.12:
+            # start vectors whose Krylov space is exhausted *exactly* (residual identically zero, not merely ~1e-16):
+            # kernel vector of an integer graph Laplacian, the zero operator, a coordinate eigenvector of a diagonal matrix
+            yield {"n": int(S.pick(rng, [3, 4, 6, 9, 12])), "dt": S.pick(rng, ["f8", "c16"]), "family": "exact-kernel", "seed": S.seed(rng),
+                   "start": S.pick(rng, ["laplacian-ones", "zero-operator", "diagonal-coordinate"]), "max_iters": S.pick(rng, ["2", "n//2", "n", "n+5", "default"]),
+                   "tol": float(S.pick(rng, [0.0, 1e-12, 1e-8, 1e-3])), "fn": S.pick(rng, ["lanczos", "lanczos_eigs", "Lanczos()"]), "scale": 1.0}
 
 
 def build(case):
     n, dt = case["n"], case["dt"]
     rng = P.rng_for("c14", case["seed"])
     cplx = dt in P.CPLX
+    if case["family"] == "exact-kernel":
+        if case["start"] == "laplacian-ones":
+            M = 2.0 * np.eye(n) - np.roll(np.eye(n), 1, axis=0) - np.roll(np.eye(n), -1, axis=0)  # cycle graph Laplacian
+            v = np.ones(n)
+        elif case["start"] == "zero-operator":
+            M = np.zeros((n, n))
+            v = rng.integers(1, 5, size=n).astype(float)
+        else:
+            M = np.diag(rng.permutation(np.arange(1, n + 1)).astype(float) - 2.0)
+            v = np.zeros(n)
+            v[int(rng.integers(0, n))] = 3.0
+        M, v = M.astype(P.DT[dt]), v.astype(P.DT[dt])
+        mi = {"2": 2, "n//2": max(1, n // 2), "n": n, "n+5": n + 5, "default": None}[case["max_iters"]]
+        return M, v, np.linalg.eigvalsh(M), 1, mi, None
     lam = spectrum(rng, n, case["family"])
     Q = P.haar(rng, n, cplx)
     M = (Q * lam) @ Q.conj().T
@@ -113,6 +133,10 @@ def judge_one(ctx, case, M, v, Q, T, lam, d, mi, preds, tol_run):
     Ql = Q[:, live]
     ctx.check("orthonormal", bool(np.abs(Ql.conj().T @ Ql - np.eye(kl)).max(initial=0.0) <= 1e-12), site="lanczos", preds=preds,
               detail={"dev": float(np.abs(Ql.conj().T @ Ql - np.eye(kl)).max(initial=0.0)), "k": k, "live": kl})
+    if "batch_col" not in preds:
+        # a single start vector: every returned column is a basis vector (only batched runs have to keep frozen zero columns
+        # for the start vectors that finished earlier than the others)
+        ctx.check("no-zero-columns-unbatched", bool(kl == k), site="lanczos", preds=preds, detail={"columns": k, "non_zero": kl})
     ctx.check("first-column", bool(np.linalg.norm(Q[:, 0] - v / np.linalg.norm(v)) <= 1e-13), site="lanczos", preds=preds,
               detail={"dev": float(np.linalg.norm(Q[:, 0] - v / np.linalg.norm(v)))})
     # T: real symmetric tridiagonal with non-negative off-diagonal
